@@ -616,6 +616,190 @@ func c12Forced(c *vk.Ctx) bool {
 		c.Count("forced_packet_pending_vs_closed_handle", 1)
 		c.Eval(fmt.Sprintf("forced|packet|pending=%d|closed-handle-reads", nPending))
 
+		// --- an accept that has fetched the handle's channel but not yet started to wait, while the
+		// last handle closes and the shared socket goes away: it must end with ErrClosed ---
+		for sub := 0; sub < 3; sub++ {
+			m = service.NewListenerManager()
+			addr = fmt.Sprintf("127.0.0.1:%d", freePort())
+			hs, err := m.ListenStream(addr)
+			if err != nil {
+				c.Inconclusive("forced accept-vs-close listen: " + err.Error())
+				break
+			}
+			held, release := holdPoint("stream.accept.beforeSelect")
+			type ares struct {
+				conn transport.StreamConn
+				err  error
+			}
+			resCh := make(chan ares, 1)
+			go func() {
+				cn, err := hs.AcceptStream()
+				resCh <- ares{cn, err}
+			}()
+			select {
+			case <-held:
+			case <-time.After(c12B):
+				c.Inconclusive("forced: stream.accept.beforeSelect not reached")
+				release()
+				hs.Close()
+				continue
+			}
+			hs.Close()
+			time.Sleep(3 * time.Millisecond) // the fan-out goroutine notices the closed socket
+			release()
+			service.VerifSetPointHook(nil)
+			select {
+			case ar := <-resCh:
+				if ar.err == nil {
+					c.Violation("C12/forced/accept-racing-last-close-returned-no-error", map[string]any{"conn_is_nil": ar.conn == nil})
+					return false
+				}
+				if !errors.Is(ar.err, net.ErrClosed) {
+					c.Violation("C12/pending-call-wrong-error-on-close", map[string]any{"err": ar.err.Error()})
+					return false
+				}
+			case <-time.After(c12B):
+				c.Violation("C12/pending-call-not-unblocked-by-close", map[string]any{"kind": "stream", "phase": "forced accept-vs-close"})
+				return false
+			}
+			c.Count("forced_accept_racing_last_close", 1)
+			c.Eval("forced|stream|accept-before-select|last-close")
+		}
+
+		// --- re-acquisition while the closer of the last handle has released the socket but not yet
+		// told the manager: the new handle works on a new socket, undisturbed by the old one ---
+		for _, kind := range []string{"stream", "packet"} {
+			m = service.NewListenerManager()
+			port = freePort()
+			addr = fmt.Sprintf("127.0.0.1:%d", port)
+			var first io.Closer
+			if kind == "stream" {
+				first, err = m.ListenStream(addr)
+			} else {
+				first, err = m.ListenPacket(addr)
+			}
+			if err != nil {
+				c.Inconclusive("forced reacquire listen: " + err.Error())
+				continue
+			}
+			held, release := holdPoint(kind + ".lastClose.beforeCallback")
+			closed := make(chan struct{})
+			go func() { first.Close(); close(closed) }()
+			select {
+			case <-held:
+			case <-time.After(c12B):
+				c.Inconclusive("forced: lastClose.beforeCallback not reached")
+				release()
+				continue
+			}
+			nItems := 5 + r.Intn(10)
+			got := make(chan uint64, 64)
+			errCh := make(chan error, 4)
+			var second io.Closer
+			if kind == "stream" {
+				sl, err := m.ListenStream(addr)
+				if err != nil {
+					c.Violation("C12/forced/reacquire-during-last-close-failed", map[string]any{"kind": kind, "err": err.Error()})
+					release()
+					return false
+				}
+				second = sl
+				go func() {
+					for {
+						cn, err := sl.AcceptStream()
+						if err != nil {
+							errCh <- err
+							return
+						}
+						go func() {
+							defer cn.Close()
+							var b [8]byte
+							cn.SetReadDeadline(time.Now().Add(c12B))
+							if _, err := io.ReadFull(cn, b[:]); err == nil {
+								got <- u64(b[:])
+							}
+						}()
+					}
+				}()
+			} else {
+				pcn, err := m.ListenPacket(addr)
+				if err != nil {
+					c.Violation("C12/forced/reacquire-during-last-close-failed", map[string]any{"kind": kind, "err": err.Error()})
+					release()
+					return false
+				}
+				second = pcn
+				go func() {
+					buf := make([]byte, 64)
+					for {
+						n, _, err := pcn.ReadFrom(buf)
+						if err != nil {
+							errCh <- err
+							return
+						}
+						if n >= 8 {
+							got <- u64(buf[:8])
+						}
+					}
+				}()
+			}
+			want := map[uint64]bool{}
+			for i := 0; i < nItems; i++ {
+				id := nextID(c.Batch)
+				want[id] = true
+				if kind == "stream" {
+					cn, err := net.DialTimeout("tcp", addr, c12B)
+					if err != nil {
+						c.Violation("C12/forced/reacquired-listener-refuses-connections", map[string]any{"err": err.Error()})
+						release()
+						return false
+					}
+					cn.Write(putU64(id))
+					defer cn.Close()
+				} else {
+					uu, _ := net.DialUDP("udp", nil, &net.UDPAddr{IP: net.IPv4(127, 0, 0, 1), Port: port})
+					uu.Write(putU64(id))
+					uu.Close()
+				}
+				if i == nItems/2 {
+					release() // the old closer finishes in the middle of the traffic
+				}
+			}
+			deadline := time.After(c12B)
+			for len(want) > 0 {
+				select {
+				case id := <-got:
+					delete(want, id)
+				case err := <-errCh:
+					c.Violation("C12/unexpected-error-on-open-handle", map[string]any{"kind": kind, "phase": "re-acquired during last close", "err": err.Error(), "missing": len(want)})
+					release()
+					return false
+				case <-deadline:
+					c.Violation("C12/forced/reacquired-listener-does-not-deliver", map[string]any{"kind": kind, "missing": len(want)})
+					release()
+					return false
+				}
+			}
+			release()
+			service.VerifSetPointHook(nil)
+			select {
+			case <-closed:
+			case <-time.After(c12B):
+				c.Violation("C12/forced/last-close-never-returns", map[string]any{"kind": kind})
+				return false
+			}
+			second.Close()
+			select {
+			case <-errCh: // the reader ends with ErrClosed now
+			case <-time.After(c12B):
+			}
+			if !c12Released(c, kind, addr) {
+				return false
+			}
+			c.Count("forced_reacquire_during_last_close", 1)
+			c.Eval(fmt.Sprintf("forced|%s|reacquire-during-last-close|items=%d", kind, nItems))
+		}
+
 		// --- failed acquisition (address busy) followed by a successful one: the single
 		// handle's close must still release everything ---
 		for _, kind := range []string{"stream", "packet"} {
@@ -708,6 +892,8 @@ func init() {
 			c.Require("forced_packet_pending_vs_closed_handle")
 			c.Require("release_checks")
 			c.Require("forced_failed_then_successful_acquire")
+			c.Require("forced_accept_racing_last_close")
+			c.Require("forced_reacquire_during_last_close")
 			c12Run(c)
 		},
 	})
